@@ -70,6 +70,8 @@ Faults(b) ==
         F("dupparam-utf8-name", doc \o <<D("GET", <<"pdupu">>, "", FALSE, "", ""), D("RESP", <<"any">>, "", FALSE, "", "200")>>, "dupparam", n + 1, "kw", 2),
         F("similar-exotic-names", doc \o <<D("GET", <<"psx1">>, "", FALSE, "", ""), D("RESP", <<"any">>, "", FALSE, "", "200"),
                                            D("GET", <<"psx2">>, "", FALSE, "", ""), D("RESP", <<"any">>, "", FALSE, "", "200")>>, "similar", n + 3, "kw", 4),
+        F("similar-names-differ-in-case", doc \o <<D("GET", <<"psc1">>, "", FALSE, "", ""), D("RESP", <<"any">>, "", FALSE, "", "200"),
+                                                   D("PUT", <<"psc2">>, "", FALSE, "", ""), D("RESP", <<"any">>, "", FALSE, "", "200")>>, "similar", n + 3, "kw", 4),
         F("jsight-unsupported-0.3.0", [doc EXCEPT ![1].p = <<"0.3.0">>], "unsupported", 1, "kw", 0),
         F("jsight-unsupported-0.03", [doc EXCEPT ![1].p = <<"0.03">>], "unsupported", 1, "kw", 0),
         F("jsight-unsupported-00.3", [doc EXCEPT ![1].p = <<"00.3">>], "unsupported", 1, "kw", 0),
